@@ -1075,9 +1075,145 @@ def shard_chain(args):
 
 # =======================================================================================
 
+# =======================================================================================
+# histories: templates are values - using one twice, or two related classes one after the
+# other, must not change what either means
+
+
+def _history_classes():
+    from cobald.interfaces import Controller, Pool, PoolDecorator
+
+    log = []
+
+    class Ctrl(Controller):
+        def __init__(self, target, tag="a"):
+            super().__init__(target)
+            log.append(("Ctrl", tag, target))
+
+    def deco(name):
+        class Deco(PoolDecorator):
+            def __init__(self, target, tag=name):
+                super().__init__(target)
+                log.append((name, tag, target))
+        Deco.__name__ = Deco.__qualname__ = name
+        return Deco
+
+    class End(Pool):
+        supply = demand = utilisation = allocation = 0
+
+        def __init__(self, tag="pool"):
+            log.append(("End", tag, None))
+
+    return log, Ctrl, deco("B"), deco("C"), deco("D"), End
+
+
+def _shape(head):
+    out = []
+    while head is not None:
+        out.append(type(head).__name__)
+        head = getattr(head, "target", None)
+    return out
+
+
+def run_history_case(case):
+    """(key, description) problems of one history case"""
+    kind = case["kind"]
+    if kind == "prefix-reuse":
+        # a kept prefix, continued in one way (result discarded or not) and then in another
+        log, Ctrl, B, C, D, End = _history_classes()
+        prefix = Ctrl.s() >> B.s()
+        first = prefix >> C.s()
+        if case["bind_first"]:
+            first >> End()
+        del log[:]
+        second = prefix >> D.s() >> End()
+        want = ["Ctrl", "B", "D", "End"]
+        if _shape(second) != want or [entry[0] for entry in log] != list(reversed(want)):
+            return [("history:prefix-reuse",
+                     "prefix = Ctrl.s() >> B.s(); prefix >> C.s()%s; prefix >> D.s() >> pool "
+                     "built %r (constructed %r), by hand it is %r"
+                     % (" >> pool" if case["bind_first"] else "", _shape(second),
+                        [entry[0] for entry in log], want))]
+        del log[:]
+        third = prefix >> End()
+        if _shape(third) != ["Ctrl", "B", "End"]:
+            return [("history:prefix-reuse", "the prefix itself later built %r" % _shape(third))]
+        return []
+    if kind == "template-reuse":
+        # one template bound twice gives two independent pipelines
+        log, Ctrl, B, C, D, End = _history_classes()
+        template = Ctrl.s(tag="x")
+        one = template >> B.s() >> End()
+        two = template >> End()
+        if _shape(one) != ["Ctrl", "B", "End"] or _shape(two) != ["Ctrl", "End"] or one is two:
+            return [("history:template-reuse", "one template bound twice built %r and %r"
+                     % (_shape(one), _shape(two)))]
+        return []
+    if kind == "derived-service":
+        # a class derived from a service class has its own constructor signature
+        import trio
+
+        from cobald.daemon import service
+        from cobald.interfaces import Controller
+
+        @service(flavour=trio)
+        class Base(Controller):
+            def __init__(self, target, alpha=1):
+                super().__init__(target)
+
+            async def run(self):
+                pass
+
+        class Derived(Base):
+            def __init__(self, target, beta, gamma=2):
+                super().__init__(target)
+
+        probes = {"base": [(Base, {"alpha": 3}, True), (Base, {"beta": 3}, False)],
+                  "derived": [(Derived, {"beta": 3}, True), (Derived, {"alpha": 3}, False)]}
+        problems = []
+        for name in case["order"]:
+            for cls, kwargs, binds in probes[name]:
+                try:
+                    cls.s(**kwargs)
+                    accepted = True
+                except TypeError:
+                    accepted = False
+                if accepted != binds:
+                    problems.append((
+                        "history:derived-service-class:%s" % (
+                            "rejects-bindable" if binds else "accepts-unbindable"),
+                        "%s.s(%s) was %s (order of use: %s)"
+                        % (cls.__name__, ", ".join("%s=..." % k for k in kwargs),
+                           "accepted" if accepted else "rejected", " then ".join(case["order"]))))
+        return problems
+    raise ValueError(kind)
+
+
+HISTORY_CASES = [
+    {"part": "history", "kind": "prefix-reuse", "bind_first": False},
+    {"part": "history", "kind": "prefix-reuse", "bind_first": True},
+    {"part": "history", "kind": "template-reuse"},
+    {"part": "history", "kind": "derived-service", "order": ["base", "derived"]},
+    {"part": "history", "kind": "derived-service", "order": ["derived", "base"]},
+    {"part": "history", "kind": "derived-service", "order": ["base", "derived", "base"]},
+]
+
+
+def shard_history(args):
+    acc = Acc()
+    for case in HISTORY_CASES:
+        problems = run_history_case(case)
+        acc.case(nontrivial_key=repr(case), sample=case)
+        acc.outcome(("history", case["kind"], not problems))
+        for key, what in problems:
+            acc.violation(key, what, case)
+    return acc
+
+
 def shard(args):
     return {"generated": shard_generated, "shipped": shard_shipped,
-            "binder": shard_binder, "chain": shard_chain}[args[0]](args)
+            "binder": shard_binder, "chain": shard_chain,
+            "history": shard_history}[args[0]](args)
 
 
 def run(ctx):
@@ -1086,7 +1222,7 @@ def run(ctx):
     max_pos = 3 if quick else 4
     max_names = 2 if quick else 5
     kinds_of_class = ["plain", "service:trio"]
-    shards = []
+    shards = [("history",)]
     # -- signature part
     for kinds in signatures(max_params):
         for role in ("controller", "decorator", "pool"):
@@ -1160,6 +1296,9 @@ def run(ctx):
 
 
 def replay(data):
+    if data["part"] == "history":
+        problems = run_history_case(data)
+        return "; ".join(what for _, what in problems) or None
     if data["part"] == "chain":
         problems = run_chain_case(data)
         return "; ".join(what for _, _, what in problems) or None
